@@ -147,13 +147,13 @@ R_INTS = [0, 1, -1, 2, 10, 42, -7, 255, 65536, 2 ** 31, 2 ** 32 + 1, 10 ** 15, T
           10 ** 18 + 1, LONG_MAX, -LONG_MAX]
 R_FLOATS = ['1.5', '0.1', '-0.25', '3.0', '1e+16', '1e300', '123456789.123456', '2.5e-10', '0.3333333333333333',
             '1.7976931348623157e+308', '5e-324', '6.02214076e23', '1e15', '123456789012345.6', '100.0']
-R_KEYS = [b'a', b'b', b'key', b'x y', b'1', b'2', b'3', b'0', b'-1', b'007', b'10', b'1.5', b'', b'\xc3\xa4', b'true', b'nil',
+R_KEYS = [b'a', b'b', b'key', b'x y', b'1', b'2', b'3', b'0', b'-1', b'007', b'10', b'1.5', b'\xc3\xa4', b'true', b'nil',
           b'_event', b'a.b', b'12abc', b'20']
 # (no large integer-like keys: a table with the single key 10^9 is read back by getLuaAsData as an array
 #  with 10^9 - 1 nil entries, which exhausts memory -- see the report)
 
 
-def random_value(rng, d):
+def random_value(rng, d, empty_key=True):
     r = rng.random()
     if d <= 0 or r < 0.35:
         k = rng.random()
@@ -168,10 +168,12 @@ def random_value(rng, d):
         n = rng.choice([0, 1, 1, 2, 2, 3, 3, 4, 9, 10, 11, 12])
         if n >= 9:
             return ('A', [random_value(rng, 0) for _ in range(n)])
-        return ('A', [random_value(rng, d - 1) for _ in range(n)])
+        return ('A', [random_value(rng, d - 1, empty_key) for _ in range(n)])
     n = rng.choice([0, 1, 1, 2, 2, 3, 4])
-    ks = rng.sample(R_KEYS, n)
-    return ('M', [(k, random_value(rng, d - 1)) for k in ks])
+    # the empty key is rare on purpose: each use can make the implementation allocate until the
+    # address-space limit (uninitialised long used as table index)
+    ks = rng.sample(R_KEYS + ([b''] if (empty_key and rng.random() < 0.04) else []), n)
+    return ('M', [(k, random_value(rng, d - 1, empty_key)) for k in ks])
 
 
 def random_raw(rng, d):
@@ -187,7 +189,7 @@ def random_raw(rng, d):
     elif shape < 0.55:      # other integers
         keys = rng.sample([0, -1, 1, 2, 3, -5], n)
     elif shape < 0.85:      # mixed
-        keys = rng.sample([1, 2, 3, b'a', b'1', b'x', 0, b'', b'2'], n)
+        keys = rng.sample([1, 2, 3, b'a', b'1', b'x', 0, b'y z', b'2'], n)
     else:                   # a full sequence
         keys = list(range(1, rng.choice([2, 5, 9, 10, 11, 15]) + 1))
     # a Lua table cannot hold the integer key i and ... it can hold both 1 and "1"; the item map of
@@ -264,13 +266,23 @@ def limited(exe):
     """vdriver behind an address-space limit: an input that makes getLuaAsData pad an array with billions of nil
     entries then ends in std::bad_alloc (answer `EXC std::bad_alloc`) instead of the OOM killer"""
     w = os.path.join(os.path.dirname(exe), 'vdriver-c16-limited.sh')
-    write_if_changed(w, '#!/bin/sh\nulimit -v 3000000\nexec %s "$@"\n' % exe)
+    write_if_changed(w, '#!/bin/sh\nulimit -v 700000\nexec %s "$@"\n' % exe)
     os.chmod(w, 0o755)
     return w
 
 
 def run(c):
+    import time as _t
+    phase = {}
+    t0 = _t.time()
+
+    def mark(name):
+        nonlocal t0
+        phase[name] = round(_t.time() - t0, 1)
+        t0 = _t.time()
+    c.notes['phase_s'] = phase
     broken = c.prove()
+    mark('prove')
     vd_cmd = ensure_vdriver('hooks', units=['vd_lua'])
     vdriver = limited(vd_cmd)
     vmodel = ensure_vmodel('lua')
@@ -286,6 +298,7 @@ def run(c):
         'Event payloads with DOM nodes or binary blobs are outside the model.',
     ]
 
+    mark('build_drivers')
     rng = c.rng
     viol_seen = set()
     hist = {}
@@ -313,6 +326,14 @@ def run(c):
     vr = '%d%d%d%d' % (vec['empty_atom_is_nil'], vec['keys_sorted_as_text'], vec['int_via_double'], vec['empty_key_undefined'])
     c.notes['defect_vector'] = vec
     c.notes['empty_key_witness_outputs'] = o[3:5]
+    c.notes['theorem_regime'] = {
+        'marshal_roundtrip': ('applies without restriction (marshal_roundtrip_fixed)' if vr == '0000' else
+                              'applies under variant_ok for the switches that are on; the full statement is refuted by: ' +
+                              ', '.join(n for n, on in (('marshal_roundtrip_empty_string_refuted', vec['empty_atom_is_nil']),
+                                                        ('marshal_roundtrip_long_array_refuted', vec['keys_sorted_as_text']),
+                                                        ('marshal_roundtrip_big_integer_refuted', vec['int_via_double']),
+                                                        ('marshal_roundtrip_empty_key_refuted', vec['empty_key_undefined'])) if on)),
+    }
 
     # ---- 2. the regenerated guard list against a probe of assign on each name
     rc, mo, _ = run_lines(vmodel, ['table'])
@@ -322,6 +343,12 @@ def run(c):
     rc, po, _ = run_lines(vdriver, ['lua-protect api-assign ' + hx(n.encode()) for n in probe_names])
     probed = [n for n, r in zip(probe_names, po) if 'error=1' in r]
     c.notes['protected_translated'] = gen_list
+    c.notes['guard_mode'] = {'guard_first': mt['guard_first'], 'init_clears_first': mt['init_clears_first'],
+                             'guard_prefix': tinfo.get('guard_prefix')}
+    c.notes['theorem_regime']['init'] = ('init_protected_refuted applies (init clears the variable before the guard)' if mt['init_clears_first'] == '1'
+                                         else 'init_protected_if_guard_first applies')
+    c.notes['theorem_regime']['paths_below'] = ('assign_below_protected_if_prefix_guard / assign_padded_protected_if_prefix_guard apply' if tinfo.get('guard_prefix')
+                                                else 'assign_below_system_var_refuted / assign_padded_system_var_refuted apply (guard by exact comparison)')
     c.notes['protected_probed'] = probed
     translator_ok = sorted(gen_list) == sorted(probed) and mt['guard_first'] == '1'
     if not translator_ok:
@@ -344,15 +371,16 @@ def run(c):
     ncorpus = len(values)
     ex = exhaustive_values()
     values += ex
-    nrand = 1500 if c.tier == 'quick' else 20000
-    for _ in range(nrand):
-        values.append(random_value(rng, rng.choice([1, 2, 3, 4, 5])))
+    nrand = 4000 if c.tier == 'quick' else 40000
+    for i in range(nrand):
+        # (empty map keys only among the first 1500: each can cost seconds, see random_value)
+        values.append(random_value(rng, rng.choice([1, 2, 3, 4, 5]), empty_key=(i < 1500)))
     raws = [from_json(j) for j in corpus['raw_lua']]
-    nraw = 3000 if c.tier == 'quick' else 40000
+    nraw = 6000 if c.tier == 'quick' else 60000
     for _ in range(nraw):
         raws.append(random_raw(rng, rng.choice([1, 2, 3])))
     trees = list(corpus['trees'])
-    ntree = 4000 if c.tier == 'quick' else 50000
+    ntree = 8000 if c.tier == 'quick' else 80000
     for _ in range(ntree):
         trees.append(random_tree(rng, rng.choice([0, 1, 2, 3])))
 
@@ -402,6 +430,7 @@ def run(c):
                 bump('runs_with_error_events')
     c.notes['rt_values'] = {'corpus': ncorpus, 'exhaustive_depth_le_2': len(ex), 'random_depth_le_5': nrand}
 
+    mark('ways_in_x_out')
     # ---- 5. raw Lua values (integer keys, holes, mixed keys): model vs code
     il2 = ['lua-lrt ' + hx(literal(v).encode()) for v in raws]
     ml2 = ['lrt %s %s' % (vr, syntax(v)) for v in raws]
@@ -433,9 +462,10 @@ def run(c):
         elif norm(io) != norm(mo_):
             disagreements.append(('drt/pay', t, '-', '-', mo_, io))
 
+    mark('raw_lua_and_data')
     # ---- 7. setEvent: merge of params and namelist (oracle: set_event_merge)
     evs = []
-    nev = 1500 if c.tier == 'quick' else 15000
+    nev = 3000 if c.tier == 'quick' else 30000
     small = [('I', 1), ('I', 2), ('S', b'x'), ('S', b'007'), ('T',), ('A', [('I', 1), ('I', 2)]), ('M', [(b'k', ('S', b'v'))])]
     for _ in range(nev):
         keys = [b'a', b'b', b'c', b'dd']
@@ -513,11 +543,15 @@ def run(c):
         if kind == 'below' and b['guard'] == '1' and a['error'] != '1':
             disagreements.append(('protect', n, md, '-', mo_, io))
         # oracle: the attempt raises error.execution and leaves the system variables unchanged
+        if kind == 'below' and b['guard'] == '1' and a['changed'] != '-':
+            disagreements.append(('protect', n, md, '-', mo_, io))
         if a['error'] != '1' or a['changed'] != '-':
             if kind == 'exact':
                 cls = 'sysvar-cleared-by-init' if md in ('api-init', 'chart-data') else 'sysvar-assigned'
+            elif n.strip().startswith(('_G', '_ENV', '(')):
+                cls = 'sysvar-alias-through-environment-table'
             else:
-                cls = 'sysvar-path-or-alias'
+                cls = 'sysvar-member-or-padded-name'
             oracle_fail.append((cls, n, md, 'system variables', 'error=1 changed=-', io))
     c.notes['protect_rows'] = prot_rows[:20]
 
@@ -531,6 +565,7 @@ def run(c):
     for t, a, b in num_dis[:3]:
         disagreements.append(('num', t, '-', '-', b, a))
 
+    mark('events_protect_numbers')
     # ---- coverage
     c.cov['evaluations'] = evaluations
     c.cov['distinct_nontrivial'] = len(nontriv)
@@ -556,7 +591,8 @@ def run(c):
     def size_key(x):
         v = x[1]
         s = syntax(v) if isinstance(v, tuple) else str(v)
-        return (len(s), s, str(x[2]), str(x[3]))
+        # chart-level probes before the C++-interface ones
+        return (len(s), s, str(x[2]).replace('chart-', '0chart-'), str(x[3]))
     per_class = {}
     for f in oracle_fail:
         per_class.setdefault(f[0], []).append(f)
